@@ -8,7 +8,8 @@ Open Scope N_scope.
     a controller that knows the setup code completes pair-setup (its name and key are what is
     stored), then pair-verify (the connection is verified), then is served over the session — for
     every controller name and key. *)
-Theorem C04_completes : forall w c n pk,
+Theorem C04_completes : forall w c n p,
+  let pk := N.pos p in   (* the controller has a long-term public key *)
   let ops := [OConnect c;
               OReq c TPlain (EPairSetup PSStart); OReq c TPlain (EPairSetup (PSVerify AValid PRight));
               OReq c TPlain (EPairSetup (PSKeyExch KSession (IGenuine n pk) false));
